@@ -317,7 +317,23 @@ def augment_generated(rng: random.Random, spec: dict) -> T.Tuple[T.Dict[str, str
             args.append(f'-D{sub}:werror=true')
         elif r < 0.4:
             args.append(f'-D{sub}:warning_level=3')
+    args += addressing_args(rng, sub)
     return inject_messages(files), args + mixed_args
+
+
+ADDRESSED = [('warning_level', ['0', '1', '2', '3']), ('werror', ['true', 'false']), ('optimization', ['0', '1', '2', '3', 's']),
+             ('b_ndebug', ['true', 'false', 'if-release']), ('strip', ['true', 'false']), ('b_lto', ['true', 'false']), ('c_std', ['c99', 'c11', 'gnu99'])]
+
+
+def addressing_args(rng: random.Random, sub: T.Optional[str]) -> T.List[str]:
+    """one option set through the three addressing forms -- global `name`, top-level-only `:name`, `sub:name` -- with pairwise different values"""
+    out: T.List[str] = []
+    for name, values in rng.sample(ADDRESSED, rng.randint(1, 3)):
+        vals = rng.sample(values, min(len(values), 3))
+        forms = ['', ':'] + ([sub + ':'] if sub else [])
+        for form, v in zip(rng.sample(forms, rng.randint(1, len(forms))), vals):
+            out.append(f'-D{form}{name}={v}')
+    return out
 
 
 # ------------------------------------------------------------------------------------------------ running meson
@@ -400,6 +416,13 @@ def run_job(job: dict, scratch: str) -> dict:
             res['oracle']['real_install'] = oracle_real_install(raw, jd)
         if job.get('real_tests'):
             res['oracle']['real_tests'] = oracle_real_tests(raw, jd)
+        if job.get('conf_args'):
+            err = second_phase(raw, bld, job['conf_args'])
+            if err is None:
+                res['oracle']['options_conf'] = oracle_options(raw, raw['conf_rows'], raw['reconf_observed'], ':after-meson-configure')
+                res['oracle']['options_reconf'] = oracle_options(raw, raw['reconf_rows'], raw['reconf_observed'], ':after-reconfigure')
+            else:
+                res['second_phase_error'] = err
         res['lean'] = lean_requests(raw)
     except Exception as ex:  # extraction must not die silently
         import traceback
@@ -463,6 +486,50 @@ def install_records(path: str) -> dict:
 MSG_RE = re.compile(r'Message: OPT\|([^|]*)\|([bpy])\|([^|]*)\|(.*)$')
 
 
+def parse_observed(out: str) -> T.List[dict]:
+    obs = []
+    for line in out.split('\n'):
+        m = MSG_RE.search(line)
+        if m:
+            val = m.group(4)
+            if val.startswith('F:'):
+                val = {'F:true,false': 'enabled', 'F:false,true': 'disabled', 'F:false,false': 'auto'}[val]
+            obs.append({'sub': m.group(1), 'kind': m.group(2), 'name': m.group(3), 'value': val})
+    return obs
+
+
+def meson_cmd(args: T.List[str], cwd: str) -> T.Tuple[int, str]:
+    e = dict(os.environ)
+    e['PATH'] = projgen.FAKEBIN + os.pathsep + e.get('PATH', '')
+    e['PYTHONPATH'] = common.REPO
+    e['PYTHONDONTWRITEBYTECODE'] = '1'
+    e.setdefault('PYTHONHASHSEED', '0')
+    for k in ('MESON_RSP_THRESHOLD', 'NINJA', 'CC', 'CFLAGS', 'LDFLAGS', 'DESTDIR', 'CPPFLAGS', 'PKG_CONFIG_PATH'):
+        e.pop(k, None)
+    p = subprocess.run([sys.executable, os.path.join(common.REPO, 'meson.py')] + args, env=e, stdout=subprocess.PIPE, stderr=subprocess.PIPE,
+                       timeout=300, cwd=cwd)
+    return p.returncode, p.stdout.decode('utf-8', 'replace') + ('' if p.returncode == 0 else p.stderr.decode('utf-8', 'replace'))
+
+
+def second_phase(raw: dict, bld: str, conf_args: T.List[str]) -> T.Optional[str]:
+    """`meson configure <args>`, then the rows `meson introspect --buildoptions` shows (written by mintro.update_build_options), then a
+    reconfigure in which the projects print what get_option() returns now, and the rows written by that setup run"""
+    rc, out = meson_cmd(['configure', bld] + conf_args, os.path.dirname(bld))
+    if rc != 0:
+        return 'meson configure failed: ' + out[-400:]
+    rc, out = meson_cmd(['introspect', '--buildoptions', bld], os.path.dirname(bld))
+    if rc != 0:
+        return 'meson introspect failed: ' + out[-400:]
+    raw['conf_rows'] = json.loads(out)
+    rc, out = meson_cmd(['setup', '--reconfigure', raw['src'], bld], os.path.dirname(bld))
+    if rc != 0:
+        return 'meson setup --reconfigure failed: ' + out[-400:]
+    raw['reconf_observed'] = parse_observed(out)
+    raw['reconf_rows'] = load_json(bld, 'intro-buildoptions.json')
+    raw['conf_args'] = conf_args
+    return None
+
+
 def extract(src: str, bld: str, out: str, trace: str, machine_files: T.Sequence[str] = ()) -> dict:
     raw: dict = {'src': src, 'bld': bld, 'machine_files': list(machine_files)}
     with open(os.path.join(bld, 'build.ninja'), encoding='utf-8') as fh:
@@ -472,15 +539,7 @@ def extract(src: str, bld: str, out: str, trace: str, machine_files: T.Sequence[
     raw['ser_tests'] = ser_tests(os.path.join(bld, 'meson-private', 'meson_test_setup.dat'))
     raw['ser_benchmarks'] = ser_tests(os.path.join(bld, 'meson-private', 'meson_benchmark_setup.dat'))
     raw['install'] = install_records(os.path.join(bld, 'meson-private', 'install.dat'))
-    obs = []
-    for line in out.split('\n'):
-        m = MSG_RE.search(line)
-        if m:
-            val = m.group(4)
-            if val.startswith('F:'):
-                val = {'F:true,false': 'enabled', 'F:false,true': 'disabled', 'F:false,false': 'auto'}[val]
-            obs.append({'sub': m.group(1), 'kind': m.group(2), 'name': m.group(3), 'value': val})
-    raw['observed'] = obs
+    raw['observed'] = parse_observed(out)
     opened = []
     if os.path.exists(trace):
         with open(trace, encoding='utf-8') as fh:
@@ -589,9 +648,14 @@ def lean_requests(raw: dict) -> dict:
     irs = [rec(r) for r in inst['recs']]
     req['install'] = ('install ' + '&'.join(S(k) + ':' + S(v) for k, v in dirs.items()) + '|' + S(inst['prefix']) + '|' +
                       '/'.join(plan) + '|' + '/'.join(installed) + '|' + '/'.join(prs) + '|' + '/'.join(irs))
-    rows = [S(r['name']) + ';' + S(canon_value(r['value'])) for r in raw['buildoptions']]
-    obs = [';'.join([S(o['sub']), S(o['name']), '1' if o['kind'] == 'b' else '0', S(o['value'])]) for o in raw['observed']]
-    req['options'] = 'options ' + '/'.join(rows) + '|' + '/'.join(obs)
+    def options_request(rows_json, observed):
+        rows = [S(r['name']) + ';' + S(canon_value(r['value'])) for r in rows_json]
+        obs = [';'.join([S(o['sub']), S(o['name']), '1' if o['kind'] == 'b' else '0', S(o['value'])]) for o in observed]
+        return 'options ' + '/'.join(rows) + '|' + '/'.join(obs)
+    req['options'] = options_request(raw['buildoptions'], raw['observed'])
+    if 'reconf_observed' in raw:
+        req['options_conf'] = options_request(raw['conf_rows'], raw['reconf_observed'])
+        req['options_reconf'] = options_request(raw['reconf_rows'], raw['reconf_observed'])
     req['files'] = 'files ' + L(f for f in raw['buildsystem_files'] if is_build_def(raw, f)) + '|' + L(f for f in raw['opened'] if is_build_def(raw, f))
     return req
 
@@ -1275,21 +1339,26 @@ def oracle_real_tests(raw: dict, jd: str) -> dict:
     return {'answer': 'OK', 'violations': viol, 'runs': runs, 'skipped': skipped}
 
 
-def oracle_options(raw: dict) -> dict:
+def oracle_options(raw: dict, rows_json: T.Optional[list] = None, observed: T.Optional[list] = None, phase: str = '') -> dict:
+    """per-project witness: every (sub)project printed get_option() for every option it can read.  The row that describes what
+    project P read is `P:name` (`:name` for the top-level project) when such a row exists -- it must show what P printed --, else
+    the global row `name`, which must therefore show what every project without a row of its own printed."""
     rows: T.Dict[str, T.List[str]] = {}
-    for r in raw['buildoptions']:
+    for r in (raw['buildoptions'] if rows_json is None else rows_json):
         rows.setdefault(r['name'], []).append(canon_value(r['value']))
     viol = []
     bits = []
-    for o in raw['observed']:
-        if o['sub'] == '':
-            name = o['name']
-            if o['kind'] == 'b' and name.startswith('build.') and name not in rows:
-                name = name[len('build.'):]    # native build: the build machine is the host machine
-        else:
-            name = o['sub'] + ':' + o['name']
-            if o['kind'] == 'b' and name not in rows:
+    for o in (raw['observed'] if observed is None else observed):
+        q = o['sub'] + ':' + o['name']
+        if o['kind'] == 'b':
+            if q in rows:
+                name = q
+            elif o['name'].startswith('build.') and o['name'] not in rows:
+                name = o['name'][len('build.'):]    # native build: the build machine is the host machine
+            else:
                 name = o['name']
+        else:
+            name = o['name'] if o['sub'] == '' else q
         vals = rows.get(name)
         ok = vals is not None and all(v == o['value'] for v in vals)
         bits.append('1' if ok else '0')
@@ -1299,12 +1368,16 @@ def oracle_options(raw: dict) -> dict:
                 key = 'buildoptions:option-read-but-not-listed:' + ('builtin' if o['kind'] == 'b' else 'project')
             elif o['kind'] == 'y':
                 key = 'buildoptions:yielding-suboption-reports-own-value'
+            elif o['kind'] == 'b' and name == q:
+                key = 'buildoptions:per-project-row-differs-from-what-the-project-read:' + ('subproject' if o['sub'] else 'top-level')
             elif o['kind'] == 'b' and o['sub']:
                 key = 'buildoptions:subproject-builtin-override-not-listed'
+            elif o['kind'] == 'b':
+                key = 'buildoptions:global-row-differs-from-top-level-project-without-row-of-its-own'
             else:
-                key = 'buildoptions:value-differs:' + ('builtin' if o['kind'] == 'b' else 'project')
-            viol.append((key, f"get_option({o['name']!r}) in {where} returned {o['value']!r}; intro-buildoptions.json row {name!r} says {vals!r}",
-                         {'observed': o, 'row': name, 'reported': vals}))
+                key = 'buildoptions:value-differs:project'
+            viol.append((key + phase, f"get_option({o['name']!r}) in {where} returned {o['value']!r}; intro-buildoptions.json row {name!r} says {vals!r}"
+                         + (f' [{phase.strip(":")}]' if phase else ''), {'observed': o, 'row': name, 'reported': vals}))
     return {'answer': f"OK|{'1' if all(b == '1' for b in bits) else '0'}|{''.join(bits)}", 'violations': viol}
 
 
@@ -1419,7 +1492,7 @@ def oracle_all(raw: dict) -> dict:
 
 # ------------------------------------------------------------------------------------------------ jobs
 
-CORPUS_VARIANTS: T.Dict[str, T.List[T.Tuple[str, T.List[str], str]]] = {
+CORPUS_VARIANTS: T.Dict[str, T.List[tuple]] = {
     'inst': [('default', [], 'none'), ('cross', [], 'cross'), ('prefix', ['--prefix=/opt/x', '--libdir=lib64', '--datadir=/abs/share', '--includedir=inc/x', '--mandir=man'], 'none'),
              ('flat-static', ['--layout=flat', '-Ddefault_library=static'], 'none'), ('bindir', ['--bindir=/usr/local/bin2', '--libexecdir=lx', '-Ddefault_library=both'], 'native')],
     'instshapes': [('default', [], 'none'), ('cross+native', ['--libdir=lib'], 'cross+native'),
@@ -1432,7 +1505,15 @@ CORPUS_VARIANTS: T.Dict[str, T.List[T.Tuple[str, T.List[str], str]]] = {
               ('std', ['-Dcpp_std=c++17', '-Dc_std=c11', '-Db_ndebug=true', '-Dwarning_level=3'], 'none'),
               ('unity', ['-Dunity=on', '-Db_ndebug=true'], 'none'), ('flat-both', ['--layout=flat', '-Ddefault_library=both', '-Db_ndebug=true', '-Dwarning_level=0'], 'native')],
     'tests': [('default', [], 'none'), ('cross+native', [], 'cross+native'), ('cross', ['--layout=flat'], 'cross'), ('flat', ['--layout=flat'], 'none'), ('static', ['-Ddefault_library=static', '-Dbuildtype=release'], 'native')],
-    'opts': [('default', [], 'none'), ('yield-parent-set', ['-Dc=c'], 'none'),
+    'opts': [('default', [], 'none', ['-Dwarning_level=1', '-D:warning_level=3', '-Dosp:warning_level=0', '-D:werror=true', '-Dosp2:werror=true',
+                                       '-Dstr=conf-global', '-Dosp:str=conf-sub', '-D:optimization=2', '-Dosp:b_ndebug=true', '-D:c_std=c11', '-Dc=b']),
+             ('three-forms', ['-Dwarning_level=1', '-D:warning_level=3', '-Dosp:warning_level=0', '-Dosp2:warning_level=2', '-Dwerror=false', '-D:werror=true',
+                              '-Dosp2:werror=true', '-Doptimization=1', '-D:optimization=2', '-Dosp:optimization=3', '-Db_ndebug=false', '-D:b_ndebug=true',
+                              '-Dosp:b_ndebug=if-release', '-Dc_std=c11', '-D:c_std=c99', '-Dosp:c_std=gnu99', '-Dc_args=-DG', '-D:c_args=-DT', '-Dosp2:c_args=-DS',
+                              '-Dstr=g', '-Dosp:str=s', '-Ddefault_library=shared', '-D:default_library=static', '-Dosp2:default_library=both'], 'none',
+              ['-Dwarning_level=2', '-D:warning_level=0', '-Dosp:warning_level=3', '-D:werror=false', '-Dosp:werror=true', '-D:default_library=both']),
+             ('three-forms-cross', ['-D:warning_level=0', '-Dwarning_level=3', '-Dosp:warning_level=1', '-D:buildtype=release', '-Dosp2:buildtype=plain',
+                                    '-D:unity=on', '-Dosp:unity=subprojects', '-D:b_lto=true', '-Dosp2:b_pie=true'], 'cross+native', ['-D:unity=off', '-Dunity=on']), ('yield-parent-set', ['-Dc=c'], 'none'),
              ('many', ['-Dstr=x y', '-Dflag=false', '-Dnum=10', '-Darr=q', '-Darrc=one,three', '-Dfeat=disabled', '-Dosp:sopt=cmdline', '-Dosp2:flag=true', '-Dosp:sfeat=enabled', '-Dosp:noparent=np', '-Dwerror=true',
                        '-Dc_args=-DA,-DB'], 'none'),
              ('cross', ['-Dstr=cross'], 'cross'), ('cross+native', ['-Dc=b', '-Dbuild.c_args=-DBM'], 'cross+native'), ('native2', [], 'native2'),
@@ -1456,10 +1537,10 @@ def make_jobs(ctx: Ctx) -> T.List[dict]:
     jobs = []
     for name, variants in CORPUS_VARIANTS.items():
         files, empt = corpus_files(name)
-        for label, args, machine in variants:
+        for label, args, machine, *rest in variants:
             jobs.append({'id': f'corpus-{name}-{label}', 'kind': 'corpus', 'name': name, 'label': label, 'args': args, 'machine': machine,
                          'files': files, 'emptydirs': empt, 'real_install': name in ('inst', 'instshapes'),
-                         'real_tests': name == 'tests' or (name == 'mixed' and ctx.deep)})
+                         'real_tests': name == 'tests' or (name == 'mixed' and ctx.deep), 'conf_args': rest[0] if rest else None})
     n_gen = ctx.scale(20, 130)
     matrix = projgen.option_matrix()
     scratch = common.scratch_dir('mverif-c15-gen-')
@@ -1479,7 +1560,8 @@ def make_jobs(ctx: Ctx) -> T.List[dict]:
             for vi, (mlabel, margs) in enumerate(picks):
                 jobs.append({'id': f'gen-{k}-{vi}', 'kind': 'gen', 'seed': seed, 'features': feats, 'label': mlabel,
                              'args': list(margs) + (oargs if vi == 0 else []),
-                             'machine': rng.choices(list(MACHINE_MATRIX), weights=[45, 15, 10, 12, 18])[0], 'files': files})
+                             'machine': rng.choices(list(MACHINE_MATRIX), weights=[45, 15, 10, 12, 18])[0], 'files': files,
+                             'conf_args': addressing_args(rng, spec.get('subproject')) if rng.random() < 0.25 else None})
     finally:
         common.rmtree(scratch)
     return jobs
@@ -1494,7 +1576,7 @@ def failing_input(res: dict) -> dict:
     job = res['job']
     d = {'project': job.get('name') or f"projgen seed {job.get('seed')} features {job.get('features')}", 'kind': job['kind'],
          'setup_args': job['args'] + [w for flag, f in MACHINE_MATRIX[machine_of(job)] for w in (flag, f'<{f}>')], 'machine': machine_of(job),
-         'job_id': job['id']}
+         'then_meson_configure': job.get('conf_args'), 'job_id': job['id']}
     return d
 
 
@@ -1516,7 +1598,7 @@ def evaluate(ctx: Ctx, results: T.List[dict], jobs_by_id: T.Dict[str, dict]) -> 
         req = r['lean']
         lines.append('targets ' + req['targets'] + '|' + edges_field(raw['bld'], edges, read_rule_commands(raw['ninja'])))
         index.append((n, 'targets'))
-        for part in PARTS[1:]:
+        for part in PARTS[1:] + [x for x in ('options_conf', 'options_reconf') if x in r['oracle']]:
             if part in ('testdeps', 'benchdeps'):
                 which = 'tests' if part == 'testdeps' else 'benchmarks'
                 pname = 'meson-test-prereq' if which == 'tests' else 'meson-benchmark-prereq'
@@ -1570,6 +1652,13 @@ def evaluate(ctx: Ctx, results: T.List[dict], jobs_by_id: T.Dict[str, dict]) -> 
             ctx.tag('buildsystem_files: regeneration-dependency entries (configure_file inputs / command scripts), not judged', len(nonclass))
         if raw['machine_files']:
             ctx.tag('machine-files:' + machine_of(job))
+        for rows_json, ph in [(raw['buildoptions'], 'setup')] + ([(raw['conf_rows'], 'meson configure'), (raw['reconf_rows'], 'reconfigure')] if 'conf_rows' in raw else []):
+            glob = {r['name']: r['value'] for r in rows_json if ':' not in r['name']}
+            for r_ in rows_json:
+                if ':' in r_['name'] and r_['section'] != 'user':
+                    proj, _, nm = r_['name'].partition(':')
+                    if nm in glob and glob[nm] != r_['value']:
+                        ctx.tag(f"option rows that differ from the global row [{ph}]: {'top-level-only' if proj == '' else 'subproject'} {r_['section']}")
         for k, v in transformations(raw).items():
             ctx.tag('transformation acts: ' + k, v)
         if raw['install']['emptydirs']:
@@ -1579,7 +1668,12 @@ def evaluate(ctx: Ctx, results: T.List[dict], jobs_by_id: T.Dict[str, dict]) -> 
         if 'real_tests' in r['oracle']:
             ctx.tag('real `meson test --no-rebuild` runs with dumper programs', r['oracle']['real_tests']['runs'])
             ctx.tag('tests whose program is a machine program (not replaceable by the dumper)', r['oracle']['real_tests']['skipped'])
-        for part in PARTS + [x for x in ('real_install', 'real_tests') if x in r['oracle']]:
+        if r.get('second_phase_error'):
+            ctx.tag('second-phase-failed')
+            ctx.extra.setdefault('second_phase_failures', []).append({'job': job['id'], 'conf_args': job.get('conf_args'), 'error': r['second_phase_error'][-300:]})
+        if 'options_conf' in r['oracle']:
+            ctx.tag('meson configure + introspect + reconfigure phases')
+        for part in PARTS + [x for x in ('real_install', 'real_tests', 'options_conf', 'options_reconf') if x in r['oracle']]:
             for key, what, detail in r['oracle'][part]['violations']:
                 case = dict(failing_input(r))
                 case['detail'] = detail
@@ -1647,7 +1741,9 @@ WITNESSES = {
     'tests.depends': ('independent', 'inputs of `build meson-test-prereq / meson-benchmark-prereq: phony` in build.ninja; every built file on the command '
                                      'line belongs to a target in depends; same-source: meson_test_setup.dat'),
     'tests.suite/is_parallel/timeout/priority/protocol/extra_paths': ('same-source only', 'meson_test_setup.dat (what `meson test` unpickles)'),
-    'buildoptions.value': ('independent', 'message(get_option()) printed by the project itself'),
+    'buildoptions.value': ('independent', 'per project: every (sub)project prints message(get_option()) for every option; a row `P:name` (`:name` = top-level project) '
+                                          'must show what P printed, a global row what every project without a row of its own printed; also on the rows shown by '
+                                          '`meson introspect --buildoptions` after `meson configure` and after the following reconfigure'),
     'install_plan.destination/tag/subproject': ('independent', 'files created by real `meson install --destdir [--tags|--skip-subprojects]` (corpus inst, instshapes); '
                                                                'same-source: install.dat'),
     'install_plan.exclude_*/install_rpath': ('same-source only', 'install.dat'),
@@ -1718,6 +1814,11 @@ def run(ctx: Ctx) -> None:
             if not ctx.dist.get('transformation acts: ' + k):
                 ctx.obligation_failed('vacuity', f'no configured project exercises the transformation {k!r} as a non-identity: the destination '
                                                   f'comparison would be vacuous for it')
+    if results_have_corpus(results):
+        for ph in ('setup', 'meson configure', 'reconfigure'):
+            for who in ('top-level-only core', 'subproject core', 'subproject base', 'subproject compiler'):
+                if not ctx.dist.get(f'option rows that differ from the global row [{ph}]: {who}'):
+                    ctx.obligation_failed('vacuity', f'no configured project has a {who} option row that differs from the global row [{ph}]')
     fails = ctx.extra.get('configure_failures', [])
     if len(fails) > max(2, len(jobs) // 5):
         ctx.obligation_failed('configure', f'{len(fails)} of {len(jobs)} meson setup runs failed: {fails[0]}')
@@ -1762,6 +1863,7 @@ def replay(ctx: Ctx, rep: dict) -> None:
             while flag in args:
                 k = args.index(flag)
                 del args[k:k + 2]
+        job['conf_args'] = inp.get('then_meson_configure')
         job['machine'] = inp.get('machine') or ('native' if '--native-file' in inp.get('setup_args', []) else 'none')
         job['args'] = args
         jobs.append(job)
